@@ -53,6 +53,11 @@ pub fn simpler_cfgs(cfg: &SimCfg) -> Vec<SimCfg> {
             out.push(c);
         }
     }
+    if cfg.steal {
+        let mut c = cfg.clone();
+        c.steal = false;
+        out.push(c);
+    }
     if cfg.inner_full {
         let mut c = cfg.clone();
         c.inner_full = false;
